@@ -205,6 +205,12 @@ def convertOld (f : Format) (v : GVal) : GVal :=
   | .int32 => .int (toInt64 v)
   | _ => convert f v
 
+/-- `bound(value)` of float.go (F63 repair): what `Float.SetMinValue` / `SetMaxValue` / `SetStepValue` store — a value that is
+    no number (NaN, ±Inf) is no bound (`nil`); before the repair it was stored as it was and the attribute database could not
+    be encoded any more (`boundOld`) -/
+def setBound (x : F64) : GVal := if x.isFinite then .float x else .nil
+def setBoundOld (x : F64) : GVal := .float x
+
 /-- clampFloat: bounds count only when they are float64 -/
 def clampFloat (cfg : Config) (x : F64) : F64 :=
   match cfg.max, cfg.min with
